@@ -80,7 +80,8 @@ Theorem src_BitArray_get cap b n : 1 <= cap <= 255 -> Forall (fun x => (x < 256)
   = Some (Some (b2z (ba_get b n)), [], [("_storage", zs b)]).
 Proof.
   intros Hcap Hb Hlen Hi. unfold run, ba_consts.
-  sym_exec.
+  pose proof (shiftr3 n) as Hs3. pose proof (land7 n) as Hl7.       (* in case the source shifts and masks instead of dividing *)
+  sym_exec. rewrite ?shiftr3, ?land7.
   reflexivity.
 Qed.
 
@@ -91,7 +92,8 @@ Theorem src_BitArray_set cap b n : 1 <= cap <= 255 -> Forall (fun x => (x < 256)
   = Some (None, [], [("_storage", zs (ba_set b n))]).
 Proof.
   intros Hcap Hb Hlen Hi. unfold run, ba_consts.
-  sym_exec. fin_uset.
+  pose proof (shiftr3 n) as Hs3. pose proof (land7 n) as Hl7.
+  sym_exec. rewrite ?shiftr3, ?land7. fin_uset.
 Qed.
 
 Theorem src_BitArray_clear cap b n : 1 <= cap <= 255 -> Forall (fun x => (x < 256)%N) b -> Z.of_nat (List.length b) = (cap + 7) / 8 -> Z.of_N n < cap ->
@@ -99,8 +101,9 @@ Theorem src_BitArray_clear cap b n : 1 <= cap <= 255 -> Forall (fun x => (x < 25
   = Some (None, [], [("_storage", zs (ba_clear b n))]).
 Proof.
   intros Hcap Hb Hlen Hi. unfold run, ba_consts.
-  sym_exec. fin_uset.
-  apply ldiff_byte. pose proof (uget_lt256 b (n / 8) Hb). lia.
+  pose proof (shiftr3 n) as Hs3. pose proof (land7 n) as Hl7.
+  sym_exec. rewrite ?shiftr3, ?land7. fin_uset.
+  all: try (apply ldiff_byte; pose proof (uget_lt256 b (n / 8) Hb); lia).
 Qed.
 
 (* ---------- bit stream: the body of the loop of write<W> ---------- *)
@@ -243,3 +246,109 @@ Proof.
   unfold w8_state in E. rewrite E. unfold write.
   destruct (write_loop (N.to_nat W) buf c item W) as [buf' c']. reflexivity.
 Qed.
+
+(* ---------- bit stream: read<W>, W <= 8 ---------- *)
+Definition r8_state (bw : Z) (item icur w : N) (x1 x2 x3 x4 x5 x6 x7 : Z) (c : N) (buf : list N) : state :=
+  {| locals := [("BIT_WIDTH", bw); ("item", Z.of_N item); ("itemCursor", Z.of_N icur); ("itemWidth", Z.of_N w);
+                ("byteIndex", x1); ("byteChunkStart", x2); ("byteDataWidth", x3); ("byteChunkWidth", x4);
+                ("byteChunkMask", x5); ("byteChunk", x6); ("itemChunk", x7)];
+     fields := [("_cursor", Z.of_N c)];
+     arrays := [("_buffer._data", zs buf)] |}.
+
+Lemma read5_body g cs bw item icur w x1 x2 x3 x4 x5 x6 x7 c buf :
+  Forall (fun x => (x < 256)%N) buf -> (item < 2 ^ icur)%N -> (icur + w <= 8)%N -> (c < 256)%N -> (N.to_nat (c / 8) < List.length buf)%nat ->
+  exists y1 y2 y3 y4 y5 y6 y7,
+  exec leaf_ftable cs (20 + g) (r8_state bw item icur w x1 x2 x3 x4 x5 x6 x7 c buf) (loop_body BitReadStreamT_100__read_5)
+  = let '(c', item', icur', w') := read_chunk buf c item icur w in
+    ONormal (r8_state bw item' icur' w' y1 y2 y3 y4 y5 y6 y7 c' buf).
+Proof.
+  intros Hb Hitem Hfit Hc Hidx. do 7 eexists. unfold r8_state, read_chunk.
+  pose proof (shiftr3 c) as Hs3. pose proof (land7 c) as Hl7.
+  pose proof (N.mod_lt c 8 ltac:(lia)) as Hm8.
+  set (cw := N.min (8 - N.land c 7) w).
+  assert (Hcw : (cw <= w /\ cw <= 8)%N) by (unfold cw; lia).
+  assert (Hmask : (1 <= N.shiftl 1 cw <= 256)%N) by (apply (Nshiftl1_range cw 8); lia).
+  assert (Hitem8 : (item < 256)%N).
+  { apply N.lt_le_trans with (2 ^ icur)%N; [exact Hitem|]. change 256%N with (2 ^ 8)%N. apply N.pow_le_mono_r; lia. }
+  set (chunk := N.land (N.shiftr (uget buf (N.shiftr c 3)) (N.land c 7)) (N.shiftl 1 cw - 1)).
+  assert (Hchunk : (chunk < 2 ^ cw)%N).
+  { unfold chunk. pose proof (Nland_range (N.shiftr (uget buf (N.shiftr c 3)) (N.land c 7)) (N.shiftl 1 cw - 1)) as [_ L].
+    rewrite N.shiftl_1_l in *. assert (2 ^ cw <> 0)%N by (apply N.pow_nonzero; lia). lia. }
+  assert (Hich : (N.shiftl chunk icur < 256)%N).
+  { apply N.lt_le_trans with (2 ^ (cw + icur))%N; [apply Nshiftl_bound; [exact Hchunk|lia]|].
+    change 256%N with (2 ^ 8)%N. apply N.pow_le_mono_r; lia. }
+  unfold chunk, cw in *.
+  sym_exec. norm_state. reflexivity.
+Qed.
+
+Lemma read5_loop : forall k g cs bw item icur w x1 x2 x3 x4 x5 x6 x7 c buf,
+  (k <= g)%nat -> Forall (fun x => (x < 256)%N) buf -> (item < 2 ^ icur)%N -> (icur + w <= 8)%N -> (w <= N.of_nat k)%N -> (c < 256)%N ->
+  (c + w <= 8 * N.of_nat (List.length buf))%N -> (List.length buf <= 32)%nat ->
+  exists y1 y2 y3 y4 y5 y6 y7 icur',
+  exec leaf_ftable cs (21 + g) (r8_state bw item icur w x1 x2 x3 x4 x5 x6 x7 c buf)
+       (SWhile (loop_cond BitReadStreamT_100__read_5) (loop_body BitReadStreamT_100__read_5))
+  = let '(item', c') := read_loop k buf c item icur w in
+    ONormal (r8_state bw item' icur' 0 y1 y2 y3 y4 y5 y6 y7 c' buf).
+Proof.
+  induction k as [|k IH]; intros g cs bw item icur w x1 x2 x3 x4 x5 x6 x7 c buf Hg Hb Hitem Hfit8 Hw Hc Hfit Hlen.
+  - assert (w = 0%N) by lia. subst w. exists x1, x2, x3, x4, x5, x6, x7, icur.
+    change (21 + g)%nat with (S (20 + g)). rewrite exec_while_unfold. reflexivity.
+  - destruct (N.eqb_spec w 0) as [->|Hw0].
+    + exists x1, x2, x3, x4, x5, x6, x7, icur. change (21 + g)%nat with (S (20 + g)). rewrite exec_while_unfold. reflexivity.
+    + destruct g as [|g]; [lia|].
+      change (21 + S g)%nat with (S (20 + S g)). rewrite exec_while_unfold.
+      assert (Hcond : eval leaf_ftable cs call_depth (r8_state bw item icur w x1 x2 x3 x4 x5 x6 x7 c buf) (loop_cond BitReadStreamT_100__read_5)
+                      = Some 1).
+      { unfold r8_state. cbn -[conv Z.of_N]. rewrite conv_bool_of_N. destruct (N.eqb_spec w 0); [contradiction|reflexivity]. }
+      rewrite Hcond. cbn [Z.eqb].
+      destruct (read5_body (S g) cs bw item icur w x1 x2 x3 x4 x5 x6 x7 c buf Hb Hitem Hfit8 Hc) as (y1 & y2 & y3 & y4 & y5 & y6 & y7 & E); [lia|].
+      rewrite E. cbn [read_loop]. rewrite (proj2 (N.eqb_neq w 0) Hw0).
+      unfold read_chunk. cbv beta iota zeta.
+      pose proof (land7 c) as Hl7. pose proof (N.mod_lt c 8 ltac:(lia)) as Hm8.
+      set (cw := N.min (8 - N.land c 7) w) in *.
+      assert (Hcw : (1 <= cw <= w /\ cw <= 8)%N) by (unfold cw; lia).
+      change (20 + S g)%nat with (21 + g)%nat.
+      apply IH.
+      * lia.
+      * exact Hb.
+      * (* the accumulated item stays below 2^(icur + cw) *)
+        set (chunk := N.land (N.shiftr (bget buf (N.shiftr c 3)) (N.land c 7)) (N.shiftl 1 cw - 1)).
+        assert (Hchunk : (chunk < 2 ^ cw)%N).
+        { unfold chunk. pose proof (Nland_range (N.shiftr (bget buf (N.shiftr c 3)) (N.land c 7)) (N.shiftl 1 cw - 1)) as [_ L].
+          rewrite N.shiftl_1_l in *. assert (2 ^ cw <> 0)%N by (apply N.pow_nonzero; lia). lia. }
+        replace (icur + cw)%N with (cw + icur)%N by lia.
+        apply Nlor_lt_pow2.
+        -- apply N.lt_le_trans with (2 ^ icur)%N; [exact Hitem|apply N.pow_le_mono_r; lia].
+        -- apply Nshiftl_bound; [exact Hchunk|lia].
+      * lia.
+      * lia.
+      * apply N.mod_lt. lia.
+      * destruct (N.ltb_spec (c + cw) 256) as [L|G].
+        -- rewrite N.mod_small by exact L. lia.
+        -- assert (c + cw = 256)%N by lia. assert (w - cw = 0)%N by lia. replace ((c + cw) mod 256)%N with 0%N by (rewrite H; reflexivity). lia.
+      * exact Hlen.
+Qed.
+
+Theorem src_read8 W c buf :
+  (1 <= W <= 8)%N -> (c < 256)%N -> Forall (fun x => (x < 256)%N) buf ->
+  (c + W <= 8 * N.of_nat (List.length buf))%N -> (List.length buf <= 32)%nat ->
+  result (run leaf_ftable (width_const W) BitReadStreamT_100__read_5 [] (cursor_fld c) (stream_obj buf))
+  = let '(v, c') := read buf c W in Some (Some (Z.of_N v), cursor_fld c', stream_obj buf).
+Proof.
+  intros HW Hc Hb Hfit Hlen. unfold run, init_locals, run_fuel, width_const, cursor_fld, stream_obj.
+  cbn [m_body m_params m_locals BitReadStreamT_100__read_5 combine map app].
+  match goal with |- context[SWhile ?c ?b] =>
+    change (SWhile c b) with (SWhile (loop_cond BitReadStreamT_100__read_5) (loop_body BitReadStreamT_100__read_5)) end.
+  remember (SWhile (loop_cond BitReadStreamT_100__read_5) (loop_body BitReadStreamT_100__read_5)) as LOOP eqn:HL.
+  repeat (rewrite exec_seq || rewrite exec_local
+          || (progress cbn -[exec conv arith Z.shiftr Z.shiftl Z.land Z.lor Z.lxor Z.lnot Z.quot Z.rem Z.div Z.modulo Z.pow nth_z set_z zs Z.of_N Z.add Z.sub Z.opp Z.mul])
+          || conv_step); norm_state.
+  subst LOOP. change 96%nat with (21 + 75)%nat.
+  destruct (read5_loop (N.to_nat W) 75 [("NBitWidth", Z.of_N W)] (Z.of_N W) 0 0 W 0 0 0 0 0 0 0 c buf)
+    as (y1 & y2 & y3 & y4 & y5 & y6 & y7 & icur' & E); try assumption; try lia.
+  unfold r8_state in E. change (Z.of_N 0) with 0 in E. rewrite E. unfold read.
+  destruct (read_loop (N.to_nat W) buf c 0 0 W) as [v c'].
+  rewrite exec_return. cbn. reflexivity.
+Qed.
+
+
